@@ -208,22 +208,44 @@ class E2:
                 c += ["--features", ",".join(self.features)]
             p = subprocess.run(["bash", "-c", f"ulimit -v {self.mem_kb}; exec timeout {int(self.timeout)} " + " ".join(c)], cwd=scratch, env=C.ENV,
                                stdout=subprocess.PIPE, stderr=subprocess.STDOUT, text=True)
+            # Kani writes the (possibly multi-line) check description into a doc comment without
+            # prefixing the continuation lines: repair that before compiling the playback tests
+            tests_src = []
+            for f in os.listdir(os.path.join(scratch, "src")):
+                fp = os.path.join(scratch, "src", f)
+                lines = open(fp).read().split("\n")
+                fixed, in_doc = [], False
+                for l in lines:
+                    if l.lstrip().startswith("/// Check for"):
+                        in_doc = True
+                    elif l.lstrip().startswith("#[test]"):
+                        in_doc = False
+                    elif in_doc and l.strip() and not l.lstrip().startswith("///"):
+                        l = "/// " + l
+                    fixed.append(l)
+                open(fp, "w").write("\n".join(fixed))
             tests = re.findall(r"fn (kani_concrete_playback_\w+)", open(os.path.join(scratch, "src", "h_gen.rs")).read() +
                                "".join(open(os.path.join(scratch, "src", f)).read() for f in os.listdir(os.path.join(scratch, "src")) if f != "h_gen.rs"))
             if not tests:
                 return {"summary": "no concrete playback test was generated", "tail": p.stdout[-400:]}
             out = {}
-            for prof in ([], ["--release"]):
-                c2 = ["cargo", "kani", "playback", "-Z", "concrete-playback"] + prof
+            for prof in ([],):
+                c2 = ["cargo", "kani", "playback", "-Z", "concrete-playback", "--lib"] + prof
                 if self.features:
                     c2 += ["--features", ",".join(self.features)]
                 c2 += ["--", "kani_concrete_playback"]
                 p2 = subprocess.run(c2, cwd=scratch, env=C.ENV, stdout=subprocess.PIPE, stderr=subprocess.STDOUT, text=True, timeout=1800)
                 m = re.search(r"test result: (\w+)\. (\d+) passed; (\d+) failed", p2.stdout)
-                out["release" if prof else "dev"] = {"result": m.group(0) if m else "no result", "panics": re.findall(r"panicked at ([^\n]*)\n([^\n]*)", p2.stdout)[:4]}
+                out["release" if prof else "dev"] = {"result": m.group(0) if m else "no result: " + p2.stdout[-300:], "panics": re.findall(r"panicked at ([^\n]*)\n([^\n]*)", p2.stdout)[:4],
+                                                      "tests": re.findall(r"test (\S+) \.\.\. (\w+)", p2.stdout)[:12]}
             shutil.rmtree(os.path.join(scratch, "target"), ignore_errors=True)
             out["tests"] = tests
-            out["summary"] = "; ".join(f"{k}: {v['result']}" for k, v in out.items() if isinstance(v, dict))
+            kind = self.table.get(harness, {}).get("kind", "well")
+            res = [r for _, r in out.get("dev", {}).get("tests", [])]
+            # an ill-shaped harness is expected to panic natively: a playback test that PASSES is the
+            # violation (the call returned); a well-shaped harness must not panic: a FAILED test is it
+            out["reproduced_natively"] = ("ok" in res) if kind == "ill" else ("FAILED" in res)
+            out["summary"] = ("reproduced natively (dev profile): " if out["reproduced_natively"] else "NOT reproduced natively (undefined-behaviour candidate, e.g. an out-of-bounds access no native run traps): ") + out["dev"]["result"]
             return out
         except Exception as ex:  # playback is best effort; the Kani counterexample itself is kept
             return {"summary": f"playback failed to run: {ex}"}
